@@ -198,8 +198,13 @@ static JanetTimestamp ts_delta(JanetTimestamp ts, double delta) {
     if (isinf(delta)) {
         return delta < 0 ? ts : INT64_MAX;
     }
-    ts += (int64_t)round(delta * 1000);
-    return ts;
+    /* Saturate instead of converting a double that does not fit into int64_t (undefined behavior,
+     * in practice a time in the distant past). 9e18 ms leaves ample room below INT64_MAX for ts. */
+    double ms = round(delta * 1000);
+    if (isnan(ms)) return ts;
+    if (ms >= 9.0e18) return INT64_MAX;
+    if (ms <= -9.0e18) return 0;
+    return ts + (int64_t) ms;
 }
 
 /* Look at the next timeout value without removing it. */
